@@ -4,12 +4,19 @@
 (* and the real sync committee aggregator is a behaviour of SyncCommittee.                      *)
 (*   Schedule      prep = slots of the prepare jobs in the scheduler after the call             *)
 (*   FirePrepare   hs = scalars of the selection signatures the signer returned (computed by    *)
-(*                 the driver from the signatures), sel = the duty's aggregator subcommittees   *)
-(*                 after Prepare, msgjob = a message job for the slot exists                    *)
-(*   FireMessage   root = head root the node returned, msgs = submitted messages with what      *)
-(*                 their signature is over, aggjob = an aggregation job for the slot exists     *)
-(*   FireAggregate contribs = submitted contributions with the root of the contribution that    *)
-(*                 was requested from the node                                                  *)
+(*                 the driver from the signatures; z = it was the zero signature), selerr = the *)
+(*                 signer answered the batch with an error, ownslot = every request was for     *)
+(*                 this slot, sel = the duty's aggregator subcommittees after Prepare, msgjob   *)
+(*                 = a message job for the slot exists                                          *)
+(*   FireMessage   root = head root the node returned, zv = members the signer answered with    *)
+(*                 the zero signature, rooterr = error for the batch, msgs = submitted messages *)
+(*                 with what their signature is over, aggjob = an aggregation job for the slot  *)
+(*                 exists                                                                       *)
+(*   FireAggregate zp = pairs the signer answered with the zero signature, cperr = error for    *)
+(*                 the batch, contribs = submitted contributions with the root of the           *)
+(*                 contribution that was requested from the node, z = zero signature, own = the *)
+(*                 signature is the one the signer returned for this very message               *)
+(*   Crash / Hung  a job panicked / did not return: no action of the specification              *)
 EXTENDS SyncCommittee, TraceLib
 
 VARIABLE l
@@ -25,6 +32,7 @@ TraceInit ==
     /\ sched = {}
     /\ prepJobs = {} /\ msgJobs = {} /\ aggJobs = {} /\ prepared = {}
     /\ hsig = {} /\ sel = {} /\ roots = {} /\ msgs = {} /\ contribs = {}
+    /\ faults = {} /\ berr = {}
     /\ InitHWM
 
 IsEvent(e) == l <= TraceLen /\ Trace[l].ev = e /\ l' = l + 1
@@ -38,22 +46,23 @@ TraceReset ==
     /\ sched' = {}
     /\ prepJobs' = {} /\ msgJobs' = {} /\ aggJobs' = {} /\ prepared' = {}
     /\ hsig' = {} /\ sel' = {} /\ roots' = {} /\ msgs' = {} /\ contribs' = {}
+    /\ faults' = {} /\ berr' = {}
 
 TraceMember ==
     /\ IsEvent("Member")
-    /\ LET t == Trace[l] IN AddMember(t.v, [idx |-> SeqToSet(t.idx), acct |-> t.acct, zero |-> t.zero])
+    /\ LET t == Trace[l] IN AddMember(t.v, [idx |-> SeqToSet(t.idx), acct |-> t.acct])
 
 TraceAdvance ==
     /\ IsEvent("Advance")
     /\ now' = Trace[l].now
     /\ UNCHANGED <<fork, shape, target, head, member, started, sched, prepJobs, msgJobs, aggJobs,
-                   prepared, hsig, sel, roots, msgs, contribs>>
+                   prepared, hsig, sel, roots, msgs, contribs, faults, berr>>
 
 TraceHead ==
     /\ IsEvent("Head")
     /\ head' = Trace[l].root
     /\ UNCHANGED <<now, fork, shape, target, member, started, sched, prepJobs, msgJobs, aggJobs,
-                   prepared, hsig, sel, roots, msgs, contribs>>
+                   prepared, hsig, sel, roots, msgs, contribs, faults, berr>>
 
 \* the prepare jobs found in the scheduler are those of the specification, each due before its slot
 TraceSchedule ==
@@ -61,33 +70,43 @@ TraceSchedule ==
     /\ Schedule(Trace[l].epoch, Trace[l].nc, SeqToSet(Trace[l].prep))
     /\ Trace[l].early
 
-\* the function H of FirePrepare, rebuilt from the logged signature scalars
-LoggedH(hs) == [r \in {<<x.v, x.sub>> : x \in hs} |-> (CHOOSE x \in hs : x.v = r[1] /\ x.sub = r[2]).h]
+\* the function H of FirePrepare, rebuilt from the logged signature scalars (ZeroSig for a zero signature)
+LoggedH(hs) == [r \in {<<x.v, x.sub>> : x \in hs} |->
+                    LET x == CHOOSE x \in hs : x.v = r[1] /\ x.sub = r[2] IN IF x.z THEN ZeroSig ELSE x.h]
 
 TraceFirePrepare ==
     /\ IsEvent("FirePrepare")
     /\ LET t == Trace[l]
-           hs == SeqToSet(t.hs) IN
+           hs == SeqToSet(t.hs)
+           H == LoggedH(hs)
+           chosen == {<<x.v, x.sub>> : x \in SeqToSet(t.sel)} IN
          /\ t.fired
+         /\ t.ownslot
          /\ \A x, y \in hs : (x.v = y.v /\ x.sub = y.sub) => x = y
-         /\ FirePrepare(t.slot, LoggedH(hs))
-         /\ OfSlot(sel', t.slot) = {[slot |-> t.slot, v |-> x.v, sub |-> x.sub] : x \in SeqToSet(t.sel)}
-         /\ t.msgjob /\ t.inslot
+         /\ t.selerr => hs = {}
+         /\ FirePrepare(t.slot, H, t.selerr, {r \in DOMAIN H : H[r] = ZeroSig} \cap chosen, t.msgjob)
+         /\ OfSlot(sel', t.slot) = {[slot |-> t.slot, v |-> p[1], sub |-> p[2]] : p \in chosen}
+         /\ t.msgjob => t.inslot
 
 TraceFireMessage ==
     /\ IsEvent("FireMessage")
     /\ LET t == Trace[l] IN
          /\ t.fired
          /\ t.root = head
-         /\ FireMessage(t.slot, t.aggjob)
+         /\ FireMessage(t.slot, SeqToSet(t.zv), t.rooterr, t.aggjob)
          /\ msgs' = msgs \cup {[slot |-> m.slot, v |-> m.v, root |-> m.root, sigv |-> m.sigv,
                                 sigroot |-> m.sigroot, sigepoch |-> m.sigepoch] : m \in SeqToSet(t.msgs)}
 
+\* a contribution counts when it carries a signature, and the one the signer gave for this very message
 TraceFireAggregate ==
     /\ IsEvent("FireAggregate")
     /\ LET t == Trace[l] IN
          /\ t.fired
-         /\ FireAggregate(t.slot, {[slot |-> c.slot, v |-> c.v, sub |-> c.sub, root |-> c.root] : c \in SeqToSet(t.contribs)})
+         /\ FireAggregate(t.slot, {<<p.v, p.sub>> : p \in SeqToSet(t.zp)}, t.cperr,
+                          {[slot |-> c.slot, v |-> c.v, sub |-> c.sub, root |-> c.root] :
+                               c \in {d \in SeqToSet(t.contribs) : ~d.z /\ d.own}})
+         \* a submitted contribution that is neither zero-signed nor carries its own signature is nobody's
+         /\ \A d \in SeqToSet(t.contribs) : d.z \/ d.own
 
 \* a Fire* stimulus for a job that neither the scheduler nor the specification has: nothing happens
 \* (the scenario expected a job that the implementation was free not to set up)
@@ -107,7 +126,7 @@ TraceSpec == TraceInit /\ [][TraceNext]_tvars
 
 TraceTypeOK == /\ shape[1] % shape[2] = 0
                /\ HMod % Modulus = 0
-               /\ \A x \in hsig : x.h \in 0 .. (HMod - 1)
+               /\ \A x \in hsig : x.h \in (0 .. (HMod - 1)) \cup {ZeroSig}
 
 HWM == UpdateHWM(l)
 TraceAccepted == TraceAcceptedUpTo
